@@ -14,7 +14,7 @@ from ..rules import pC23
 ID = 'C23'
 TECHNIQUE = ('typestate fixpoint on clang CFGs (clang --analyze, debug.DumpCFG only) of an assembled Coroutine.c/AsyncGen.c translation unit, one copy '
              'of each protocol function per #if configuration; path-sensitive AST dataflow (pyflow) of the yield-site emitter; table agreement of '
-             'resume_label constants between compiler and C runtime')
+             'resume_label constants between compiler and C runtime; flow-insensitive points-to (ownership) analysis of the closure-slot allocator')
 DECIDES = ('S1: in every function of Coroutine.c/AsyncGen.c that calls __Pyx_Coroutine_test_and_set_is_running, for every combination of the #if '
            'conditions inside it: the result of the call is branched on; the "already running" branch never releases; on the acquired branch every path '
            'to a return (or the end of the function) passes __Pyx_Coroutine_unset_is_running exactly once; no second acquire while holding; macros and '
@@ -29,7 +29,9 @@ DECIDES = ('S1: in every function of Coroutine.c/AsyncGen.c that calls __Pyx_Cor
            'generate_function_body() one unconditional `case number: goto label` per element of code.yield_labels with the placeholders bound in pair order. '
            'RL: the finished marker stored by the generated body is negative, the C constructor initialises resume_label to the first-run case, and every '
            'C comparison of resume_label with a constant separates values that are really stored (-1 / 0 / 1..n). '
-           'UNDEL: every jump to throw_here in __Pyx__Coroutine_Throw is dominated by __Pyx_Coroutine_Undelegate(gen).')
+           'UNDEL: every jump to throw_here in __Pyx__Coroutine_Throw is dominated by __Pyx_Coroutine_Undelegate(gen). '
+           'SLOT: in Code.ClosureTempAllocator (the closure fields that hold live temporaries across a yield) no list/dict object that is mutated in place is reachable from '
+           'more than one pool attribute (shallow copies share their elements), and the slot allocate_temp returns out of a pool list is removed from it (.pop).')
 NOT_DECIDED = ('the observable trace itself (values, StopIteration payloads, finally blocks, exception chaining) — only the run-state and resume-point '
                'bookkeeping is decided. Rule S3 of the design (raise => error return on the same CFGs) is not armed: its 12 untriaged sites need value '
                'tracking and would be a proxy today. The typestate is path-sensitive only in the test_and_set result (directly, through !/__builtin_expect/'
@@ -65,6 +67,10 @@ MUTATIONS = [
     ('Cython/Compiler/Nodes.py', "exit code: resume_label = -2", 'C23-RL (SendEx, athrow tests dead)'),
     ('Cython/Utility/Coroutine.c', 'NewInit: resume_label = 1; SendEx: `resume_label == -2`', 'C23-RL (2 variants)'),
     ('Cython/Compiler/Nodes.py', '"case 1: goto %s;" % first_run_label', 'C23-RL init'),
+    ('Cython/Compiler/Code.py', 'seed C23b: ClosureTempAllocator.reset: self.temps_free = dict(self.temps_allocated)', 'C23-SLOT'),
+    ('Cython/Compiler/Code.py', 'reset: self.temps_free[type] = cnames (no copy) / = self.temps_allocated.copy() / .update(self.temps_allocated) / {t: c for t, c in ...items()}', 'C23-SLOT (4 variants)'),
+    ('Cython/Compiler/Code.py', 'allocate_temp: self.temps_allocated[type] = self.temps_free[type] = []', 'C23-SLOT'),
+    ('Cython/Compiler/Code.py', 'allocate_temp: return self.temps_free[type][0] (read, not popped)', 'C23-SLOT return'),
 ]
 PRESERVING = [
     ('Cython/Utility/Coroutine.c', '__Pyx_Generator_Next: `char busy = test_and_set(gen); if (unlikely(busy != 0))`', 'silent'),
@@ -75,6 +81,9 @@ PRESERVING = [
     ('Cython/Compiler/ExprNodes.py', 'generate_yield_code: label_num renamed', 'silent'),
     ('Cython/Compiler/Nodes.py', 'resume switch case emitted with an f-string', 'silent'),
     ('Cython/Compiler/Code.py', 'new_yield_label: `number = 1 + len(...)`; pair built in two steps', 'silent'),
+    ('Cython/Compiler/Code.py', 'ClosureTempAllocator.reset: self.temps_free = {t: list(c) for t, c in self.temps_allocated.items()}', 'silent'),
+    ('Cython/Compiler/Code.py', 'reset: loop over keys, `names = self.temps_allocated[ctype]; self.temps_free[ctype] = names[:]`', 'silent'),
+    ('Cython/Compiler/Code.py', 'reset: copy.deepcopy(self.temps_allocated); allocate_temp: `free = self.temps_free[type]; if free: return free.pop(0)`', 'silent'),
 ]
 
 
